@@ -308,8 +308,23 @@ def run_spell(ctx, shard):
         D = model.dense(P, n, symm)
         with ctx.case(cid, {"n": n, "pattern": pat, "symm": symm}) as c:
             f = h5py.File(path, "r")
+            # an HDF5 file that exists in memory only (core driver, no backing store): nothing on disk bears its name
+            mem = h5py.File(os.path.join(os.path.dirname(path), f"only-in-memory-{k}.h5"), "w", driver="core", backing_store=False)
+            for key_ in f.keys():
+                f.copy(key_, mem)
+            mem.attrs.update(f.attrs)
             stores = {"path": cooler.Cooler(path), "uri": cooler.Cooler(path + "::/"),
-                      "handle": cooler.Cooler(f), "group": cooler.Cooler(f["/"])}
+                      "handle": cooler.Cooler(f), "group": cooler.Cooler(f["/"]), "in-memory-handle": cooler.Cooler(mem)}
+            # pixel-table output with joined coordinates through every store form
+            keysP = sorted(P)
+            for st_, obj_ in stores.items():
+                for join_ in (False, True):
+                    dfp = obj_.matrix(balance=False, as_pixels=True, join=join_)[0:n, 0:n]
+                    okp = dfp["count"].tolist() == [P[kk] for kk in keysP] and \
+                        (("start1" in dfp.columns and dfp["start1"].tolist() == [kk[0] for kk in keysP]) if join_
+                         else dfp["bin1_id"].tolist() == [kk[0] for kk in keysP])
+                    c.check(okp, f"window-pixels:store-form:{st_}", f"matrix(as_pixels=True, join={join_})[:, :] via a Cooler on "
+                            f"{st_} is not the stored pixel table" + (" with its bin coordinates" if join_ else ""))
             rr = all_ranges(n)
             nq = 0
             for (a, b) in rr:
@@ -341,6 +356,7 @@ def run_spell(ctx, shard):
                     c.nontrivial("spell", cid, a, b, x, y)
             ctx.oracle_evals += nq
             ctx.evaluations += nq
+            mem.close()
             f.close()
             ctx.sample({"spelling_case": {"n": n, "pattern": pat, "symm": symm}, "queries": nq}, limit=7)
         os.remove(path)
